@@ -55,6 +55,9 @@ def cmd_check(prop: str, tier: str) -> int:
                         run.errors.append(f"gir-mismatch G2: {m}")
                     for m in list(g.get("g3_noexcept_with_eh", []))[:5]:
                         run.errors.append(f"gir-mismatch G3: {m}")
+                    pc = g.get("positive_control")
+                    if not g.get("skipped") and (pc is None or not pc.get("reported")):
+                        run.errors.append("gir: the positive control (a hidden call must be reported by the G2 comparison) did not fire")
                     if not g.get("skipped") and g.get("functions_checked", 0) == 0:
                         run.errors.append("gir: no analysed function could be matched in the compiler's dump")
             except AnalysisError as e:
